@@ -93,8 +93,15 @@ func VerifH_PathTagTitle() {
 func VerifH_Annotation() {
 	n := verifrt.Choice("n", verifrt.Bound("N")+1)
 	s := verifrt.String("s", n)
-	for i := 0; i < n; i++ {
-		verifrt.Assume(s[i] < 0x80 && s[i] != '\v')
+	if verifrt.Bound("INTERIOR") == 1 {
+		// any bytes at all between two letters (nothing to trim at the ends): only runs of the five ASCII
+		// white-space characters are collapsed; VT, NBSP, U+3000, ... are text and stay as declared (C04)
+		s = "a" + s + "a"
+		n += 2
+	} else {
+		for i := 0; i < n; i++ {
+			verifrt.Assume(s[i] < 0x80 && s[i] != '\v')
+		}
 	}
 	var want []byte
 	pendingBlank := false
@@ -111,5 +118,6 @@ func VerifH_Annotation() {
 		want = append(want, c)
 	}
 	verifrt.Assert("C15.annotation", Annotation(s) == string(want))
+	verifrt.Assert("C04.annotation-as-declared", Annotation(s) == string(want))
 	verifrt.Reach("C15.annotation.collapsed", len(want)+2 <= n && len(want) >= 3)
 }
